@@ -1,10 +1,174 @@
 (* Facts about the configuration path (Model/SyncConfig.v): the model satisfies the configuration oracle,
    the all-omitted configuration gives the documented admissible defaults, NaN settings end in a
    configuration that sync.Run refuses, an omitted clock_drift is clocks.UnknownDrift. *)
-From Coq Require Import ZArith List Bool Lia Reals.
-From ST Require Import Base.Ints Base.F64 Model.NtpTime Model.Units Model.Sync Model.SyncConfig Proofs.SyncProofs.
-From Flocq Require Import Core.Core IEEE754.BinarySingleNaN.
+From Coq Require Import ZArith List Bool Lia Reals Lra Psatz.
+From ST Require Import Base.Ints Base.F64 Model.NtpTime Model.Units Model.Sync Model.SyncConfig Proofs.SyncProofs Proofs.SyncDriftProofs.
+From Flocq Require Import Core.Core Relative IEEE754.BinarySingleNaN.
 Open Scope Z_scope.
+
+#[local] Instance Vexp2 : Valid_exp fexp := fexp_correct prec emax Hprec.
+#[local] Instance Vrnd2 : Valid_rnd (round_mode mode_NE) := valid_rnd_round_mode mode_NE.
+
+Lemma trunc_err r : (Rabs (IZR (Ztrunc r) - r) < 1)%R.
+Proof.
+  destruct (Rle_or_lt 0 r) as [H|H].
+  - rewrite Ztrunc_floor by exact H. pose proof (Zfloor_lb r). pose proof (Zfloor_ub r). apply Rabs_def1; lra.
+  - rewrite Ztrunc_ceil by lra. pose proof (Zceil_ub r). pose proof (Zceil_lb r). apply Rabs_def1; lra.
+Qed.
+
+Lemma trunc_small r : (Rabs r < 1)%R -> Ztrunc r = 0.
+Proof.
+  intros H. apply Rabs_def2 in H. destruct (Rle_or_lt 0 r) as [H0|H0].
+  - rewrite Ztrunc_floor by exact H0. apply Zfloor_imp. simpl. lra.
+  - rewrite Ztrunc_ceil by lra. apply Zceil_imp. simpl. lra.
+Qed.
+
+Lemma format_2m1022 : generic_format radix2 fexp (bpow radix2 (-1022)).
+Proof. apply generic_format_bpow. unfold SpecFloat.fexp, SpecFloat.emin, prec, emax. lia. Qed.
+
+Lemma RN_opp x : RN (- x) = (- RN x)%R.
+Proof. unfold RN. apply round_NE_opp. Qed.
+
+(* one rounding to nearest and one truncation *)
+Lemma trunc_rn_close V : (Rabs V < bpow radix2 62)%R ->
+  (Rabs (IZR (Ztrunc (RN V)) - V) <= 1 + bpow radix2 (-52) * Rabs V)%R /\ (Ztrunc (RN V) = 0 -> (Rabs V < 1)%R).
+Proof.
+  intros HV. split.
+  - destruct (Rle_or_lt (bpow radix2 (-1022)) (Rabs V)) as [Hn|Hs].
+    + destruct (RN_rel V Hn) as [e [He E]].
+      pose proof (trunc_err (RN V)) as T. rewrite E in *.
+      assert (Rabs (V * (1 + e) - V) <= u * Rabs V)%R.
+      { replace (V * (1 + e) - V)%R with (V * e)%R by ring. rewrite Rabs_mult. pose proof (Rabs_pos V). nra. }
+      assert (U2 : (u * 2 = bpow radix2 (-52))%R) by (rewrite u_val; simpl; lra).
+      pose proof (Rabs_pos V).
+      replace (IZR (Ztrunc (V * (1 + e))) - V)%R with ((IZR (Ztrunc (V * (1 + e))) - V * (1 + e)) + (V * (1 + e) - V))%R by ring.
+      eapply Rle_trans; [apply Rabs_triang|]. rewrite <- U2. pose proof u_range. nra.
+    + assert (Rabs (RN V) <= bpow radix2 (-1022))%R.
+      { apply abs_round_le_generic; auto with typeclass_instances; [apply format_2m1022|lra]. }
+      assert (bpow radix2 (-1022) < 1)%R by (change 1%R with (bpow radix2 0); apply bpow_lt; lia).
+      rewrite trunc_small by lra. pose proof (Rabs_pos V). pose proof (bpow_ge_0 radix2 (-52)).
+      replace (0 - V)%R with (- V)%R by ring. rewrite Rabs_Ropp. nra.
+  - intros Z0. destruct (Rlt_or_le (Rabs V) 1) as [L|G]; [exact L|exfalso].
+    destruct (Rle_or_lt 0 V) as [P|N].
+    + rewrite Rabs_pos_eq in G by exact P.
+      assert (1 <= RN V)%R by (rewrite <- RN_1; apply RN_le; exact G).
+      pose proof (Ztrunc_le _ _ H) as T. rewrite Ztrunc_IZR in T. lia.
+    + rewrite Rabs_left in G by exact N.
+      assert (RN V <= -1)%R.
+      { replace V with (- - V)%R by ring. rewrite RN_opp. assert (1 <= RN (- V))%R by (rewrite <- RN_1; apply RN_le; lra). lra. }
+      pose proof (Ztrunc_le _ _ H) as T. rewrite Ztrunc_IZR in T. lia.
+Qed.
+
+Lemma IZR_pow2 n : 0 <= n -> IZR (2 ^ n) = bpow radix2 n.
+Proof. intros H. exact (IZR_Zpower radix2 n H). Qed.
+
+Lemma bpow_split e : (bpow radix2 e * bpow radix2 (Z.max 0 (- e)) = bpow radix2 (Z.max 0 e))%R.
+Proof. rewrite <- bpow_plus. f_equal. lia. Qed.
+
+(* seconds -> nanoseconds (timemath.Duration): within 1 ns + 2^-52 relative of x * 10^9, and 0 only below 1 ns *)
+Lemma dur_of_seconds_spec x : nanos_close x (dur_of_seconds x) = true /\ (dur_of_seconds x = 0 -> is_finite x = true -> sub_ns x = true).
+Proof.
+  destruct x as [s|s| |s m e B].
+  - split; [destruct s; vm_compute; reflexivity|intros _ _; reflexivity].
+  - split; [reflexivity|discriminate].
+  - split; [reflexivity|discriminate].
+  - set (x := B754_finite s m e B).
+    set (sm := if s then Z.neg m else Z.pos m).
+    set (j := Z.max 0 e). set (k := Z.max 0 (- e)).
+    assert (Sc : scaled x = Some (sm * 1000000000 * 2 ^ j, 2 ^ k)) by reflexivity.
+    set (v := sm * 1000000000 * 2 ^ j) in *. set (q := 2 ^ k) in *.
+    assert (Hj : 0 <= j) by (unfold j; lia). assert (Hk : 0 <= k) by (unfold k; lia).
+    assert (Bx : B2R x = (IZR sm * bpow radix2 e)%R).
+    { unfold x, sm. cbn. unfold F2R. cbn. destruct s; reflexivity. }
+    set (V := (B2R x * 1000000000)%R).
+    assert (Rq : IZR q = bpow radix2 k) by (unfold q; apply IZR_pow2; exact Hk).
+    assert (Rv : IZR v = (V * IZR q)%R).
+    { unfold v, V. rewrite !mult_IZR, (IZR_pow2 j Hj), Rq, Bx.
+      pose proof (bpow_split e) as S. fold j k in S. rewrite <- S. ring. }
+    assert (Qp : (0 < IZR q)%R) by (rewrite Rq; apply bpow_gt_0).
+    destruct (f_of_int_exact 1000000000) as [V9 F9]; [lia|].
+    assert (Main : (Rabs V < bpow radix2 62)%R ->
+                   dur_of_seconds x = Ztrunc (RN V)).
+    { intros HV. unfold dur_of_seconds.
+      destruct (fmul_val x (f_of_int 1000000000)) as [E1 E2]; [reflexivity|exact F9| |].
+      { rewrite V9. fold V. apply Rle_lt_trans with (bpow radix2 62); [|apply bpow_lt; reflexivity].
+        apply abs_round_le_generic; auto with typeclass_instances; [apply format_pow2; lia|lra]. }
+      rewrite V9 in E1. fold V in E1.
+      rewrite f_to_i64_val; [rewrite E1; reflexivity|exact E2|].
+      rewrite E1. apply Rle_lt_trans with (bpow radix2 62); [|change (IZR two63) with (bpow radix2 63); apply bpow_lt; reflexivity].
+      apply abs_round_le_generic; auto with typeclass_instances; [apply format_pow2; lia|lra]. }
+    assert (Small : Z.abs v < 2^62 * q -> (Rabs V < bpow radix2 62)%R).
+    { intros H. apply IZR_lt in H. rewrite abs_IZR, mult_IZR, Rv, Rabs_mult, (Rabs_pos_eq (IZR q)) in H by lra.
+      change (IZR (2^62)) with (bpow radix2 62) in H. nra. }
+    split.
+    + unfold nanos_close. rewrite Sc. destruct (Z.abs v <? 2 ^ 62 * q) eqn:C; [|reflexivity].
+      apply Z.ltb_lt in C. pose proof (Small C) as HV. rewrite (Main HV).
+      destruct (trunc_rn_close V HV) as [T _]. set (n := Ztrunc (RN V)) in *.
+      apply Z.leb_le. apply le_IZR.
+      rewrite plus_IZR, !mult_IZR, !abs_IZR, minus_IZR, mult_IZR, Rv.
+      change (IZR (2^52)) with (bpow radix2 52).
+      replace (IZR n * IZR q - V * IZR q)%R with ((IZR n - V) * IZR q)%R by ring.
+      rewrite !Rabs_mult, (Rabs_pos_eq (IZR q)) by lra.
+      assert (P : (bpow radix2 (-52) * bpow radix2 52 = 1)%R) by (rewrite <- bpow_plus; reflexivity).
+      pose proof (Rabs_pos V). pose proof (bpow_gt_0 radix2 52). pose proof (bpow_gt_0 radix2 (-52)).
+      apply Rle_trans with ((1 + bpow radix2 (-52) * Rabs V) * IZR q * bpow radix2 52)%R.
+      * apply Rmult_le_compat_r; [lra|]. apply Rmult_le_compat_r; [lra|exact T].
+      * replace ((1 + bpow radix2 (-52) * Rabs V) * IZR q * bpow radix2 52)%R
+          with (IZR q * bpow radix2 52 + Rabs V * IZR q * (bpow radix2 (-52) * bpow radix2 52))%R by ring.
+        rewrite P. lra.
+    + intros Z0 _. unfold sub_ns. rewrite Sc. apply Z.ltb_lt.
+      destruct (Z_lt_le_dec (Z.abs v) (2^62 * q)) as [C|C].
+      * pose proof (Small C) as HV. rewrite (Main HV) in Z0.
+        destruct (trunc_rn_close V HV) as [_ T]. specialize (T Z0).
+        apply lt_IZR. rewrite abs_IZR, Rv, Rabs_mult, (Rabs_pos_eq (IZR q)) by lra. nra.
+      * (* the value is at least 2^62 ns: the conversion cannot give 0 *)
+        exfalso. revert Z0.
+        assert (HV : (bpow radix2 62 <= Rabs V)%R).
+        { apply IZR_le in C. rewrite abs_IZR, mult_IZR, Rv, Rabs_mult, (Rabs_pos_eq (IZR q)) in C by lra.
+          change (IZR (2^62)) with (bpow radix2 62) in C. nra. }
+        assert (HR : (bpow radix2 62 <= Rabs (RN V))%R).
+        { destruct (Rle_or_lt 0 V) as [P|N].
+          - rewrite Rabs_pos_eq in HV by exact P.
+            assert (bpow radix2 62 <= RN V)%R by (rewrite <- (RN_id_format (bpow radix2 62)) by (apply format_pow2; lia); apply RN_le; exact HV).
+            rewrite Rabs_pos_eq; [exact H|]. pose proof (bpow_gt_0 radix2 62). lra.
+          - rewrite Rabs_left in HV by exact N.
+            assert (bpow radix2 62 <= RN (- V))%R by (rewrite <- (RN_id_format (bpow radix2 62)) by (apply format_pow2; lia); apply RN_le; exact HV).
+            rewrite RN_opp in H. pose proof (bpow_gt_0 radix2 62). rewrite Rabs_left; lra. }
+        unfold dur_of_seconds, fmul.
+        generalize (Bmult_correct prec emax Hprec Hmax mode_NE x (f_of_int 1000000000)).
+        rewrite V9. fold V. fold (RN V).
+        set (y := Bmult mode_NE x (f_of_int 1000000000)). clearbody y.
+        case Rlt_bool_spec; intros Hov.
+        -- intros [E1 [E2 _]]. unfold f_to_i64, fis_finite. rewrite E2, F9. change (is_finite x) with true. cbn [andb].
+          assert (ET : Btrunc y = Ztrunc (RN V)).
+          { apply eq_IZR. rewrite (Btrunc_correct prec emax Hmax), E1. apply round_FIX_IZR. }
+          rewrite ET.
+          assert (NZ : Ztrunc (RN V) <> 0).
+          { intros Z0. pose proof (trunc_err (RN V)) as T. rewrite Z0 in T.
+            replace (0 - RN V)%R with (- RN V)%R in T by ring. rewrite Rabs_Ropp in T.
+            assert (1 < bpow radix2 62)%R by (change 1%R with (bpow radix2 0); apply bpow_lt; lia). lra. }
+          destruct (in_i64b (Ztrunc (RN V))); [exact NZ|unfold min_i64; lia].
+        -- intros E. unfold f_to_i64, fis_finite.
+          assert (is_finite y = false).
+          { change (binary_overflow prec emax mode_NE (xorb (Bsign x) (Bsign (f_of_int 1000000000)))) with (SpecFloat.S754_infinity (xorb (Bsign x) (Bsign (f_of_int 1000000000)))) in E.
+            destruct y as [sy|sy| |sy my ey By]; try reflexivity; discriminate E. }
+          rewrite H. unfold min_i64. lia.
+Qed.
+
+Lemma dur_or_ok x dflt : dur_setting_ok x dflt (dur_or x dflt) = true.
+Proof.
+  destruct x as [x|]; [|vm_compute; apply Z.eqb_refl].
+  unfold dur_setting_ok, dur_or, setting.
+  destruct (dur_of_seconds_spec x) as [C Z0].
+  destruct (dur_of_seconds x =? 0) eqn:E.
+  - apply Z.eqb_eq in E. rewrite Z.eqb_refl. cbn [andb].
+    destruct x as [s|s| |s m e B].
+    + rewrite (Z0 E eq_refl). reflexivity.
+    + destruct s; vm_compute in E; discriminate E.
+    + vm_compute in E. discriminate E.
+    + rewrite (Z0 E eq_refl). reflexivity.
+  - rewrite C, E. apply orb_true_r.
+Qed.
 
 Lemma config_oracle drift ref peer cutoff timeout interval :
   let cfg := sync_config ref peer cutoff timeout interval in
@@ -17,12 +181,9 @@ Proof.
   cbv zeta. unfold clock_drift, C01_config_ok.
   destruct (flt (setting drift) fzero) eqn:E; [reflexivity|].
   cbn [Bool.eqb orb andb sync_config c_ref c_peer c_cutoff c_timeout c_interval]. unfold factor_or, same_f.
-  rewrite !Z.eqb_refl. cbn [andb].
-  assert (A : match drift with None => dur_of_seconds (setting drift) =? 0 | Some _ => true end = true).
-  { destruct drift; [reflexivity|]. vm_compute. reflexivity. }
-  rewrite A. cbn [andb].
-  assert (B : forall dflt, dur_or None dflt = dflt) by (intros; vm_compute; reflexivity).
-  destruct cutoff, timeout, interval; rewrite ?B, ?Z.eqb_refl; reflexivity.
+  rewrite !Z.eqb_refl, !dur_or_ok. cbn [andb].
+  destruct drift as [x|]; [|vm_compute; reflexivity].
+  cbn [setting]. rewrite (proj1 (dur_of_seconds_spec x)). reflexivity.
 Qed.
 
 (* nothing configured: the documented defaults 1.25 / 2.5 / 50 us / 500 ms / 1 s, which sync.Run accepts;
